@@ -190,6 +190,8 @@ def check_case(doc, obs, tag='enum'):
                           doc, repr(e))
         if data is not None:
             obs.count('writer_bytes_checked', len(data))
+            from mon.props.c02 import check_exotic_arguments
+            check_exotic_arguments(doc, recipe.writer_calls(doc), data, obs)
             if not common.bytes_equivalent(data, want, layout)[0]:
                 i = next((j for j in range(min(len(data), len(want)))
                           if data[j] != want[j]), min(len(data), len(want)))
